@@ -448,11 +448,13 @@ class Check:
         ev = {'property_id': self.id, 'tier': self.tier, 'seed': self.seed, 'level': 'proof',
               'coverage': cov, 'assumptions': self.assumptions, 'wall_s': round(wall, 2),
               'violations': (len(self.failures) if self.failures else (1 if broken else 0))}
-        os.makedirs(os.path.join(ROOT, 'evidence'), exist_ok=True)
-        tmp = os.path.join(ROOT, 'evidence', '%s.json.tmp' % self.id)
+        # a debugging run without the Lean build is not a record of the check: it never replaces the evidence file
+        evdir = os.path.join(ROOT, 'replays', 'debug-evidence') if getattr(self, 'no_lean', False) else os.path.join(ROOT, 'evidence')
+        os.makedirs(evdir, exist_ok=True)
+        tmp = os.path.join(evdir, '%s.json.tmp' % self.id)
         with open(tmp, 'w') as f:
             json.dump(ev, f, indent=1, default=str)
-        os.replace(tmp, os.path.join(ROOT, 'evidence', '%s.json' % self.id))
+        os.replace(tmp, os.path.join(evdir, '%s.json' % self.id))
         for k, (t, n) in sorted(self.known_hits.items()):
             print('KNOWN-FINDING: property=%s %s [%s; %d case(s) this run]' % (self.id, t, k, n))
         if violation:
